@@ -1,6 +1,7 @@
 package main
 
 import (
+	"math/rand"
 	"bytes"
 	"fmt"
 	"strings"
@@ -133,6 +134,11 @@ func genBoxProps(c *Ctx, which string) {
 	files, names := repoMediaFiles()
 	for i, d := range files {
 		checkWholeFile(c, which, d, names[i])
+	}
+	for it := 0; it < c.N(60, 600); it++ {
+		if d, name := genMixedProtection(c.R); d != nil {
+			checkWholeFile(c, which, d, fmt.Sprintf("mixed-protection#%d(%s)", it, name))
+		}
 	}
 	for it := 0; it < c.N(30, 400); it++ {
 		pf := genProgFile(c.R, 1+c.R.Intn(3), 30)
@@ -288,6 +294,11 @@ func checkWholeFile(c *Ctx, which string, d []byte, name string) {
 			}
 		}
 	}
+	// C03: the two decodings describe the same structure (Info at full detail)
+	var i1, i2 bytes.Buffer
+	if p := safe(func() { _ = fr.Info(&i1, "all:1", "", " "); _ = fs.Info(&i2, "all:1", "", " ") }); p == "" && i1.String() != i2.String() {
+		fail("C03", "decoders-info", "DecodeFile and DecodeFileSR results print different Info: "+firstDiffLine(i1.String(), i2.String()), "", "")
+	}
 	if g1, g2 := groupingOf(fr), groupingOf(fs); g1 != g2 {
 		fail("C03", "decoders-grouping", "DecodeFile and DecodeFileSR group init/segments/fragments or record start positions differently", g2, g1)
 	}
@@ -337,4 +348,118 @@ func modelCase(c *Ctx, bs []byte) {
 	req := "box.rt " + hx(bs)
 	c.Case(req, boxRT(bs))
 	c.Count("model." + string(bs[4:8]))
+}
+
+// genMixedProtection: init + multi-track fragments where a random subset of the tracks is protected (cenc / cbcs,
+// 8- or 16-byte per-sample IVs incl. IVs whose low half is zero, with or without sub-sample entries), trafs in random
+// order; sometimes the media segment alone (decoded without its init, so the IV size has to be inferred).
+func genMixedProtection(r *rand.Rand) ([]byte, string) {
+	var out []byte
+	name := ""
+	p := safe(func() {
+		nt := 1 + r.Intn(3)
+		key := []byte("0123456789abcdef")
+		kid, _ := mp4.NewUUIDFromString("11112222333344445555666677778888")
+		prot := make([]bool, nt)
+		ivLen := make([]int, nt)
+		full := mp4.CreateEmptyInit()
+		for t := 0; t < nt; t++ {
+			// InitProtect works on a single-track init: protect a one-track copy and move its trak over
+			one := mp4.CreateEmptyInit()
+			one.AddEmptyTrack(48000, "audio", "und")
+			_ = one.Moov.Trak.SetAACDescriptor(2, 48000)
+			prot[t] = r.Intn(3) > 0
+			ivLen[t] = []int{8, 16}[r.Intn(2)]
+			if prot[t] {
+				iv := make([]byte, ivLen[t])
+				r.Read(iv)
+				scheme := []string{"cenc", "cenc", "cbcs"}[r.Intn(3)]
+				if _, err := mp4.InitProtect(one, key, iv, scheme, kid, nil); err != nil {
+					return
+				}
+			}
+			full.AddEmptyTrack(48000, "audio", "und")
+			trak := full.Moov.Traks[t]
+			src := one.Moov.Trak
+			src.Tkhd.TrackID = uint32(t + 1)
+			// replace the stsd of the new trak by the (possibly protected) one
+			stbl := trak.Mdia.Minf.Stbl
+			for i, ch := range stbl.Children {
+				if ch.Type() == "stsd" {
+					stbl.Children[i] = src.Mdia.Minf.Stbl.Stsd
+				}
+			}
+			stbl.Stsd = src.Mdia.Minf.Stbl.Stsd
+		}
+		var buf bytes.Buffer
+		if err := full.Encode(&buf); err != nil {
+			return
+		}
+		initLen := buf.Len()
+		nfr := 1 + r.Intn(2)
+		for fi := 0; fi < nfr; fi++ {
+			order := r.Perm(nt)
+			ids := make([]uint32, nt)
+			for i, t := range order {
+				ids[i] = uint32(t + 1)
+			}
+			frag, err := mp4.CreateMultiTrackFragment(uint32(fi+1), ids)
+			if err != nil {
+				return
+			}
+			ns := 1 + r.Intn(4)
+			for _, t := range order {
+				for k := 0; k < ns; k++ {
+					d := make([]byte, 8+r.Intn(20))
+					r.Read(d)
+					fs := mp4.FullSample{Sample: mp4.Sample{Flags: mp4.SyncSampleFlags, Dur: 1024, Size: uint32(len(d))}, DecodeTime: uint64((fi*ns + k) * 1024), Data: d}
+					if err := frag.AddFullSampleToTrack(fs, uint32(t+1)); err != nil {
+						return
+					}
+				}
+			}
+			for i, t := range order {
+				if !prot[t] {
+					continue
+				}
+				senc := mp4.NewSencBox(0, 0)
+				subs := r.Intn(2) == 0
+				for k := 0; k < ns; k++ {
+					iv := make([]byte, ivLen[t])
+					r.Read(iv)
+					if ivLen[t] == 16 && r.Intn(2) == 0 {
+						for j := 8; j < 16; j++ {
+							iv[j] = 0
+						}
+						iv[15] = byte(k)
+					}
+					ss := mp4.SencSample{IV: iv}
+					if subs {
+						ss.SubSamples = []mp4.SubSamplePattern{{BytesOfClearData: uint16(r.Intn(8)), BytesOfProtectedData: uint32(r.Intn(16))}}
+					}
+					if err := senc.AddSample(ss); err != nil {
+						return
+					}
+				}
+				if err := frag.Moof.Trafs[i].AddChild(senc); err != nil {
+					return
+				}
+			}
+			if err := frag.Encode(&buf); err != nil {
+				return
+			}
+		}
+		all := buf.Bytes()
+		name = fmt.Sprintf("tracks=%d protected=%v ivlen=%v", nt, prot, ivLen)
+		if r.Intn(4) == 0 {
+			out = append([]byte{}, all[initLen:]...) // the media segment alone
+			name += " segment-only"
+		} else {
+			out = append([]byte{}, all...)
+		}
+	})
+	if p != "" {
+		return nil, ""
+	}
+	return out, name
 }
